@@ -464,8 +464,36 @@ DelTag(st, id, t) ==
          THEN {Ok([st EXCEPT !.lines[i].name = "*"])}        \* the ID tag is the identifier of an L/C line
        ELSE {Ok([st EXCEPT !.lines[i] = WithoutTag(st.lines[i], t.tagn[1])])}
 
+\* --- editing a positional field of a connected line -----------------------------
+\* The documentation: the fields of a connected line which contain references to other
+\* lines, and the fields from which the collections holding the back-references are
+\* computed, cannot be changed; the identifier is changed by renaming (Rename above);
+\* every other field can be edited and the line then reads as edited.
+\*   "ref"   refused,  "name" see Rename,  "plain" accepted
+FieldClass(rt, ver, pos) ==
+  CASE rt = "S" -> IF pos = 1 THEN "name" ELSE "plain"
+    [] rt = "L" -> "ref"                                   \* ends, orientations, overlap: all identify/file the link
+    [] rt = "C" -> IF pos \in {1, 3} THEN "ref" ELSE "plain"  \* containments are filed by the segments alone
+    [] rt = "E" -> IF pos = 1 THEN "name" ELSE IF pos <= 7 THEN "ref" ELSE "plain"
+    [] rt = "G" -> IF pos = 1 THEN "name" ELSE IF pos <= 3 THEN "ref" ELSE "plain"
+    [] rt = "F" -> IF pos = 1 THEN "ref" ELSE "plain"       \* the external sequence is not a line of the Gfa
+    [] rt \in {"P", "O", "U"} -> IF pos = 1 THEN "name" ELSE "ref"
+    [] OTHER -> "plain"
+\* old: the line as it reads before the call, new: as it reads with the field replaced
+\* (both abstracted from text by the harness); valid: the value is allowed by the datatype
+SetField(st, old, new, pos, valid) ==
+  LET tgt == {i \in DOMAIN st.lines : Norm(st.lines[i]) = Norm(old)} IN
+  IF tgt = {} THEN {Fail(st, "NotFoundError")}
+  ELSE LET i == CHOOSE i \in tgt : TRUE
+           fc == FieldClass(old.rt, st.ver, pos) IN
+    IF fc = "ref" THEN {Fail(st, "Error")}
+    ELSE IF fc = "name" \/ Ambiguous(st) THEN {Unmodelled(st)}
+    ELSE IF valid # "valid" THEN (IF st.vlevel >= 3 THEN {Fail(st, "Error")} ELSE {Unmodelled(st)})
+    ELSE {Ok([st EXCEPT !.lines[i] = new])}
+
 Step(st, op) ==
   CASE op.k = "add"   -> Add(st, op.l)
+    [] op.k = "setf"  -> SetField(st, op.ls[1], op.ls[2], op.n, op.id2)
     [] op.k = "settag" -> SetTag(st, op.id, op.l)
     [] op.k = "deltag" -> DelTag(st, op.id, op.l)
     [] op.k = "load"  -> Load(st, op.ls)
